@@ -80,6 +80,20 @@ c15inv = {
  "parse_sub_expression": [(1, "!ign(current_token.TokenType)")],
  "parse_subroutine": [(1, "!ign(current_token.TokenType)")],
 }
+# C04: the command node carries the amount clause exactly as parse_amount read it. amtAll/Skip/Take/Last
+# NAME the four results of parse_amount for given arguments (an assumed, definitional postcondition of
+# parse_amount, which is a function of the token list: listed with the assumptions).
+def amounts(var, n):
+    eq = "%s.All == amtAll(tokens, token_index + 1) && %s.Skip == amtSkip(tokens, token_index + 1) && %s.Take == amtTake(tokens, token_index + 1) && %s.Last == amtLast(tokens, token_index + 1)"
+    out = ["ensures amounts: result.2 == nil ==> " + (eq % ("result.0","result.0","result.0","result.0")) + " [C04]"]
+    for k in range(1, n + 1):
+        out.append("loop %d invariant amounts: " % k + (eq % (var, var, var, var)) + " [C04]")
+    return out
+c04extra = {"parse_find": amounts("findCommand", 1), "parse_replace": amounts("replaceCommand", 2)}
+w("//@ specfunc amtAll(Slice, Int) Bool")
+w("//@ specfunc amtSkip(Slice, Int) Int")
+w("//@ specfunc amtTake(Slice, Int) Int")
+w("//@ specfunc amtLast(Slice, Int) Int")
 for name, ip, kind, nonEof, extra in funcs:
     w("//@ func %s [C08 C15]" % name)
     w("//@   noframe")
@@ -104,6 +118,8 @@ for name, ip, kind, nonEof, extra in funcs:
         w("//@   loop %d invariant %s" % (k+1, inv))
     for n, inv in c15inv.get(name, []):
         w("//@   loop %d invariant sig: %s [C15]" % (n, inv))
+    for line in c04extra.get(name, []):
+        w("//@   " + line)
     w("")
 w("//@ func parse_amount [C08 C04 C15]")
 w("//@   noframe")
@@ -126,6 +142,7 @@ w("//@   ensures skiptake: ta == SKIP && nb && tokens[c].TokenType == TAKE && nd
 w("//@   ensures take: (ta == TAKE || ta == TOP) && nb ==> result.5 == nil && !result.0 && result.1 == 0 && result.2 == vb && result.3 == 0 && result.4 == b + 1 [C04]")
 w("//@   ensures last: ta == LAST && nb ==> result.5 == nil && result.0 && result.1 == 0 && result.2 == 0 && result.3 == vb && result.4 == b + 1 [C04]")
 w("//@   ensures other: !(ta == ALL || ta == SKIP || ta == TAKE || ta == TOP || ta == LAST) ==> result.5 != nil [C04]")
+w("//@   assumes named: result.0 == amtAll(tokens, token_index) && result.1 == amtSkip(tokens, token_index) && result.2 == amtTake(tokens, token_index) && result.3 == amtLast(tokens, token_index) [C04]")
 w("")
 w("//@ func parse_process_statements [C08 C15]")
 w("//@   noframe")
@@ -168,6 +185,9 @@ w("//@   requires (forall k :: { tokens[k] } 0 <= k && k < len(tokens) ==> token
 w("//@   ensures nohole: result.2 == nil ==> wfbox(result.0)")
 w("//@   ensures index: result.2 == nil ==> index < result.1 && result.1 <= len(tokens)")
 w("//@   loop 1 invariant index < token_index && token_index <= len(tokens) && wfbox(lhs)")
+# C11, left association: an infix operator is admitted only if its left power reaches the caller's minimum,
+# and its right operand is parsed with a minimum above that left power (an operator of the same level ends it)
+w("//@   atcall parse_expr_pratt rightoperand: defined(lprec) ==> lbp(tokens[token_index].TokenType) >= minPrecedence && arg2 > lbp(tokens[token_index].TokenType) && arg1 == token_index + 1 [C11]")
 w("")
 w("//@ func parse [C08 C15 C13]")
 w("//@   noframe")
